@@ -312,7 +312,8 @@ func GenNodes(r *rand.Rand, its []IT, pools []NodePool, o GenOpts) []Node {
 			nd.Taints = append(nd.Taints, Taint{Key: "node.kubernetes.io/not-ready", Value: "", Effect: "NoSchedule"})
 		}
 		nd.Deleting = r.Float64() < 0.12 && nd.Pool != "" && nd.Stage == "initialized"
-		if nd.Stage != "claim" {
+		// pods run only on nodes that have registered (an unregistered node still carries the unregistered NoExecute taint)
+		if nd.Stage == "registered" || nd.Stage == "initialized" {
 			k := r.IntN(4)
 			var used int64
 			for j := 0; j < k; j++ {
